@@ -33,9 +33,10 @@ RULE = ("case = (part, size, spectrum, dtype, domain kind, rhs, start, precondit
         "sizes merged); non-trivial = at least one CG iteration ran and a verdict was issued and checked "
         "(cg/inv), or a non-zero position was evaluated (qe)")
 ASSUMPTIONS = [
+    "a controller without any criterion (no tolerance and no iteration limit) is outside the premise and not enumerated",
     "matrix entries / rhs / start values are alphabet values (fixed unitary mixing selected by VERIF_SEED); structure is exhaustive",
     "true residual accepted within 1e3*eps*kappa*(|b|+|A||x|) of the controller's threshold (controller sees the recurred residual)",
-    "Krylov-optimality of iterates only asserted for kappa<=1e3 and the first min(n,8) iterations",
+    "Krylov-optimality of iterates (energy within 1e-5*(E0-E*) of the subspace minimum) only asserted when the preconditioned system has kappa<=1e3, for the first min(n,8) iterations",
     "operators are harness-side dense leaves; GPU / MPI paths not exercised",
 ]
 
@@ -143,7 +144,7 @@ def cases(tier, seed):
     for n in ([1, 2, 3, 5, 8] if quick else [1, 2, 3, 5, 8, 13, 21]):
         for spec in _spectra(n):
             for cplx in (False, True):
-                for dom in (["un"] if n == 1 else ["un", "multi"]):
+                for dom in (["un"] if n == 1 or (quick and n == 8) else ["un", "multi"]):
                     for has in ("fwd", "inv", "times", "all"):
                         for approx in (["none", "exact", "diag"] + (["hpd"] if n > 1 else [])):
                             for ck, lim in (("gn_abs", None), ("gn_rel", None), ("gn_abs", 2), ("gn_lim", 100), ("gn_abs_l2", None),
@@ -209,15 +210,17 @@ def verify(log, fin, status, A, M, b, x0, lam, kind, limit, nreset, napply0, tag
 
     # (0) CG never increases the (true) energy; positions stay finite
     Etrue = []
+    floor_at = None
     for k, x in enumerate(xs):
         with np.errstate(all="ignore"):
             Ek = S.energy(A, b, x) if np.all(np.isfinite(x)) else np.inf
         if k and not (Ek <= Etrue[-1] + slack_E):
-            rprev = np.linalg.norm(S.grad(A, b, xs[k - 1]))
-            floor = rprev <= slack_g
-            return V("true energy rises from %.17g to %.6g at step %d (residual before the step %.2e%s)"
-                     % (Etrue[-1], Ek, k, rprev, ", i.e. at the round-off floor: CG leaves the exact solution" if floor else ""),
-                     "cg|energy-increases|%s" % ("from-roundoff-floor" if floor else "mid-run"))
+            return V("true energy rises from %.17g to %.6g at step %d%s"
+                     % (Etrue[-1], Ek, k, "" if floor_at is None else
+                        " (|A x - b| <= %.1e since step %d: CG leaves the solution it had reached to round-off)" % (slack_g, floor_at)),
+                     "cg|energy-increases|%s" % ("mid-run" if floor_at is None else "after-reaching-roundoff-floor"))
+        if floor_at is None and np.isfinite(Ek) and np.linalg.norm(S.grad(A, b, x)) <= slack_g:
+            floor_at = k
         Etrue.append(Ek)
     # (1) value / gradient of every energy consistent with its position
     Es, gs = [], []
@@ -364,12 +367,28 @@ def _entry(energy):
     return dict(x=dense.flatten(energy.position), g=dense.flatten(energy.gradient), v=energy.value, obj=energy)
 
 
-def _ctrl_exception(e, kind, E0, where="ConjugateGradient"):
+DUP = "same execution as an already reported controller-start exception (differs only in parameters not yet used)"
+
+
+def _ctrl_exception(e, kind, E0, where="ConjugateGradient", representative=True):
+    """The controller raised inside start(): nothing of (preconditioner, limit, nreset / approximation) has been
+    used yet, so all cases differing only in those are the very same execution; it is reported once (on the
+    simplest of them) and the literal duplicates are skipped -- finish() makes sure the report exists."""
     import traceback
+    if not representative:
+        return skip(DUP)
     tb = traceback.extract_tb(e.__traceback__)[-1]
     return bad("%s with %s raised %r at %s:%d `%s` (start energy value %r)"
                % (where, CTRL[kind][0], e, tb.filename.split("/nifty/")[-1], tb.lineno, tb.line, E0),
                finding_key="controller|%s|%s|start-energy-zero=%s" % (CTRL[kind][0], type(e).__name__, E0 == 0))
+
+
+def finish(run):
+    if run.skips.get(DUP) and not any((o.get("finding_key") or "").startswith("controller|") and "start-energy" in o["finding_key"]
+                                      for _, o in run.violations):
+        run.violations.append((dict(part="finish"), bad("duplicates of a controller-start exception were skipped but the "
+                                                        "representative case did not report it", finding_key="harness|dedupe")))
+    return {}
 
 
 # ------------------------------------------------------------------ part cg
@@ -397,7 +416,10 @@ def run_cg(c):
     except S.Runaway:
         return bad("CG did not terminate within %d iterations" % (60 * n + 300), finding_key="cg|no-termination|%s" % c["ctrl"])
     except (ZeroDivisionError, FloatingPointError, ValueError) as e:
-        return _ctrl_exception(e, c["ctrl"], E0.value)
+        if len(rec.log) > 1 or (rec.log and "status" in rec.log[0]):
+            raise
+        rep = c["prec"] == "none" and c["nreset"] == (20 if c["rhs"] == "zero" else 1) and c["limit"] == (1 if c["rhs"] == "zero" else 0)
+        return _ctrl_exception(e, c["ctrl"], E0.value, representative=rep)
     fin = _entry(Ef)
     v, label, stats = verify(rec.log, fin, status, A, M, b, x0, lam, c["ctrl"], c["limit"], c["nreset"], napply0, "cg",
                              msgs=list(cap.msgs))
@@ -465,7 +487,9 @@ def run_inv(c):
             except S.Runaway:
                 return bad("InversionEnabler: CG did not terminate", finding_key="cg|no-termination|%s" % c["ctrl"])
             except (ZeroDivisionError, FloatingPointError, ValueError) as ex:
-                return _ctrl_exception(ex, c["ctrl"], 0., where="InversionEnabler")
+                if len(rec.log) > 1 or (rec.log and "status" in rec.log[0]):
+                    raise
+                return _ctrl_exception(ex, c["ctrl"], 0., where="InversionEnabler", representative=c["approx"] == "none")
             yv = dense.flatten(y)
             if not cplx:
                 if np.iscomplexobj(dense_raw(y)):
